@@ -9,6 +9,7 @@ import (
 func init() {
 	zzvf.Register("VF_C07_L1_Mixes", VF_C07_L1_Mixes)
 	zzvf.Register("VF_C08_L1_Mixes", VF_C08_L1_Mixes)
+	zzvf.Register("VF_C03_L2_Handover", VF_C03_L2_Handover)
 }
 
 var vfMixKinds = []vfReqKind{
@@ -25,13 +26,14 @@ var vfMixKinds = []vfReqKind{
 // vfMixes explores request mixes on one connection: R client requests (kinds
 // fixed by the instance parameters k0..k2), every answer order and outcome of
 // the service requests they cause, and optionally one service event.
-func vfMixes(checkC07, checkC08 bool) {
+func vfMixes(checkC07, checkC08 bool, handover ...bool) {
 	nreq := zzvf.Param("reqs")
 	rich := zzvf.Param("rich") == 1
 	evs := zzvf.Param("events")
 	w := vfNewWorld(Config{})
 	cl := w.connect("cidA", versionLatest)
 	r := vfNewRun(w, cl)
+	r.checkHandover = len(handover) > 0 && handover[0]
 	var kinds []vfReqKind
 	for i := 0; i < nreq; i++ {
 		name := "k0"
@@ -157,3 +159,8 @@ func vfCheckUnsubscribeResults(r *vfRun, frames []vfFrame) {
 
 func VF_C07_L1_Mixes() { vfMixes(true, false) }
 func VF_C08_L1_Mixes() { vfMixes(false, true) }
+
+// VF_C03_L2_Handover: the request mixes with service events, checking that
+// no event for a resource reaches the client before the response (or event)
+// that first hands the resource over.
+func VF_C03_L2_Handover() { vfMixes(false, false, true) }
